@@ -55,6 +55,13 @@ package transaction
 //@   ensures lastTxnGetOK == (err == nil)
 //@   ensures err != nil ==> result == nil
 //@   ensures err == nil ==> result != nil && fresh(result) && txnSnapshotted(result) && txnWellFormed(result) && txnInv(result)
+//@   ensures errWF(err)
+
+// the records a List hands out are decoded from the store: no nil element
+//@ iface Store.List(ctx) (result, err)
+//@   modifies nothing
+//@   ensures forall t in result :: t != nil
+//@   ensures errWF(err)
 
 //@ iface Store.GetByIndex(ctx, index) (result, err)
 //@   modifies lastTxnGetOK, txnFound[index], txnIsChange[index], txnInitDone[index], txnLooked[index]
@@ -65,6 +72,7 @@ package transaction
 //@   ensures txnLooked[index]
 //@   ensures err != nil ==> result == nil
 //@   ensures err == nil ==> result != nil && fresh(result) && txnSnapshotted(result) && txnWellFormed(result) && txnInv(result) && result.Index == index
+//@   ensures errWF(err)
 
 //@ iface Store.UpdateStatus(ctx, transaction) (err)
 //@   requires transaction != nil
